@@ -41,12 +41,26 @@ def load_units():
     return units
 
 
+_UNITS = None
+
+
 def _work(args):
-    name, tier = args
-    for u in load_units():
-        if u.name == name:
-            return run_unit(u, tier)
-    raise RuntimeError(name)
+    global _UNITS
+    name, tier, prefix, split = args
+    if _UNITS is None:
+        _UNITS = {u.name: u for u in load_units()}
+    return run_unit(_UNITS[name], tier, prefix=tuple(prefix), split=split)
+
+
+def merge(a, b):
+    """Merge the summary of a sub-tree exploration into the unit's summary."""
+    a["obligations"].extend(b["obligations"])
+    for k in ("paths", "pruned", "solver_s"):
+        a[k] += b[k]
+    a["wall_s"] = round(a.get("wall_s", 0) + b.get("wall_s", 0), 3)
+    if b["error"] and not a["error"]:
+        a["error"], a["error_kind"] = b["error"], b["error_kind"]
+    return a
 
 
 def known_findings():
@@ -122,16 +136,27 @@ def main(argv=None):
         return 3
 
     ctxm = mp.get_context("fork")
-    results = []
-    with cf.ProcessPoolExecutor(max_workers=max(1, min(a.jobs, len(units))), mp_context=ctxm) as ex:
-        futs = {ex.submit(_work, (u.name, tier)): u for u in units}
-        for f in cf.as_completed(futs):
-            try:
-                results.append(f.result())
-            except Exception as e:  # worker crashed
-                results.append({"unit": futs[f].name, "error": "worker crashed: " + repr(e), "error_kind": "engine",
-                                "obligations": [], "paths": 0, "pruned": 0, "functions": [], "bounded": None,
-                                "fmodel": "?", "solver_s": 0, "canary": None, "assumptions": [], "props": [prop], "replay": None, "wall_s": 0})
+    byunit = {}
+    crash = lambda nm, e: {"unit": nm, "error": "worker crashed: " + repr(e), "error_kind": "engine", "obligations": [], "paths": 0,
+                           "pruned": 0, "functions": [], "bounded": None, "fmodel": "?", "solver_s": 0, "canary": None,
+                           "assumptions": [], "props": [prop], "replay": None, "wall_s": 0, "pending": []}
+    with cf.ProcessPoolExecutor(max_workers=max(1, a.jobs), mp_context=ctxm) as ex:
+        futs = {ex.submit(_work, (u.name, tier, (), 4 * a.jobs if getattr(u, "parallel", False) else 0)): u.name for u in units}
+        while futs:
+            done, _ = cf.wait(list(futs), return_when=cf.FIRST_COMPLETED)
+            for f in done:
+                nm = futs.pop(f)
+                try:
+                    r = f.result()
+                except Exception as e:  # worker crashed
+                    r = crash(nm, e)
+                for pre in r.pop("pending", []):
+                    futs[ex.submit(_work, (nm, tier, tuple(pre), 0))] = nm
+                if nm in byunit:
+                    merge(byunit[nm], r)
+                else:
+                    byunit[nm] = r
+    results = list(byunit.values())
     results.sort(key=lambda r: r["unit"])
 
     kf = known_findings()
